@@ -45,21 +45,22 @@ FamS(PSs, N, IDs, SHs) == {Desc(ps, es) : ps \in PSs, es \in UNION {EntSeqs(n, I
 IdsQ == {<<"s", 1>>, <<"i", 1>>, <<"i", 2>>}
 IdsT == IdsQ \cup {<<"s", 2>>}             \* <<"s", 2>> is the string "1": not the integer 1
 
-Descs_Tiny  == FamS({PS0, PS2}, 2, {<<"i", 1>>}, {SH1, SH3}) \cup FamV({<< <<"R2">>, Kw1("H2") >>}, {"CHandler"}, {})
-Descs_QuickV == FamV(ArgsOne \cup ArgsTwo(Core), {"CPlain", "CHandler"}, {"PA"})
-Descs_QuickS == FamS({PS0, PS2, PS5, PS6}, 3, IdsQ, {SH0, SH1, SH3, SH4})
-Descs_Quick  == Descs_QuickV \cup Descs_QuickS
-
-\* thorough: shards (one TLC run + dump each)
-Descs_TV1 == FamV(ArgsOne \cup ArgsTwo(Toks), {"CPlain"}, {})
-Descs_TV2 == FamV(ArgsOne \cup ArgsTwo(Toks), {"CHandler"}, {})
-Descs_TV3 == FamV(ArgsOne \cup ArgsTwo(Toks), {}, {"PA", "PHandler"})
+\* TLC evaluates every zero-arity constant definition at start-up, used or not: the families hide
+\* behind the constant Fam and one CASE, so only the chosen one is ever built.
+CONSTANT Fam
 SHsT == {SH0, SH1, SH2, SH3, SH4, SH5}
-Descs_TS0 == FamS({PS0}, 3, IdsT, SHsT)
-Descs_TS1 == FamS({PS1}, 3, IdsT, SHsT)
-Descs_TS2 == FamS({PS2}, 3, IdsT, SHsT)
-Descs_TS3 == FamS({PS3}, 3, IdsT, SHsT)
-Descs_TS4 == FamS({PS4}, 3, IdsT, SHsT)
-Descs_TS5 == FamS({PS5}, 3, IdsT, SHsT)
-Descs_TS6 == FamS({PS6}, 3, IdsT, SHsT)
+PSOf(k) == CASE k = "TS0" -> PS0 [] k = "TS1" -> PS1 [] k = "TS2" -> PS2 [] k = "TS3" -> PS3
+             [] k = "TS4" -> PS4 [] k = "TS5" -> PS5 [] k = "TS6" -> PS6
+QuickV(u) == FamV(ArgsOne \cup ArgsTwo(Core), {"CPlain", "CHandler"}, {"PA"})
+QuickS(u) == FamS({PS0, PS2, PS5, PS6}, 3, IdsQ, {SH0, SH1, SH3, SH4})
+DescsOf ==
+    CASE Fam = "tiny"   -> FamS({PS0, PS2}, 2, {<<"i", 1>>}, {SH1, SH3}) \cup FamV({<< <<"R2">>, Kw1("H2") >>}, {"CHandler"}, {})
+      [] Fam = "quickV" -> QuickV(0)
+      [] Fam = "quickS" -> QuickS(0)
+      [] Fam = "quick"  -> QuickV(0) \cup QuickS(0)
+      \* thorough: shards (one TLC run + dump each)
+      [] Fam = "TV1"    -> FamV(ArgsOne \cup ArgsTwo(Toks), {"CPlain"}, {})
+      [] Fam = "TV2"    -> FamV(ArgsOne \cup ArgsTwo(Toks), {"CHandler"}, {})
+      [] Fam = "TV3"    -> FamV(ArgsOne \cup ArgsTwo(Toks), {}, {"PA", "PHandler"})
+      [] OTHER          -> FamS({PSOf(Fam)}, 3, IdsT, SHsT)
 =============================================================================
